@@ -82,10 +82,10 @@ def _loaded_twin(case, mem, comps, t):
         names = {id(comps[0]): case["c1"]["builtin"], id(comps[1]): case["c2"]["builtin"]}
         with open(os.path.join(mdir, "ideal_experiments.csv"), "w") as fh:
             fh.write("name,temperature,component,activation_energy,permeance,units,comment\n")
-            for e in mem.ideal_experiments.experiments:
-                fh.write("%s,%r,%s,%s,%r,%s,c\n" % (e.name, float(e.temperature), names[id(e.component)],
-                                                   "" if e.activation_energy is None else repr(float(e.activation_energy)),
-                                                   float(e.permeance.value), e.permeance.units))
+            for k, e in enumerate(mem.ideal_experiments.experiments):  # the optional comment is left blank in every second row
+                fh.write("%s,%r,%s,%s,%r,%s,%s\n" % (e.name, float(e.temperature), names[id(e.component)],
+                                                    "" if e.activation_energy is None else repr(float(e.activation_energy)),
+                                                    float(e.permeance.value), e.permeance.units, "c" if k % 2 else ""))
         loaded = call(build.Membrane.load, mdir)
         require(not is_raised(loaded), "Membrane.load of a membrane directory with ideal_experiments.csv raised %r", loaded)
         require(len(loaded.ideal_experiments.experiments) == len(mem.ideal_experiments.experiments), "%d experiments tabulated, %d loaded",
